@@ -21,6 +21,7 @@ import (
 	"math/rand"
 	"net"
 	"os"
+	"reflect"
 	"sort"
 	"strconv"
 	"strings"
@@ -73,6 +74,23 @@ type op struct {
 	f    func()
 }
 
+// exported methods an operation reaches besides the one it is named after (printed as `opmap` lines)
+var (
+	alsoMu  sync.Mutex
+	alsoMap = map[string][]string{}
+)
+
+func also(name string, methods ...string) {
+	alsoMu.Lock()
+	alsoMap[name] = methods
+	alsoMu.Unlock()
+}
+
+var totalRounds = 1
+
+// runRound: the operations of round `round` = the `always` ones + a window that rotates through `ops`
+// (so that every operation of the list is forced within totalRounds/2 rounds of either list variant) +
+// random ones up to a random size in [min,max]; each runs in its own goroutine, released together.
 func runRound(rng *rand.Rand, scen string, round int, ops []op, min, max int, always ...string) {
 	n := min + rng.Intn(max-min+1)
 	var picked []op
@@ -82,6 +100,14 @@ func runRound(rng *rand.Rand, scen string, round int, ops []op, min, max int, al
 				picked = append(picked, o)
 			}
 		}
+	}
+	half := totalRounds / 2
+	if half < 1 {
+		half = 1
+	}
+	w := (len(ops) + half - 1) / half
+	for j := 0; j < w; j++ {
+		picked = append(picked, ops[((round/2)*w+j)%len(ops)])
 	}
 	for len(picked) < n {
 		picked = append(picked, ops[rng.Intn(len(ops))])
@@ -99,6 +125,11 @@ func runRound(rng *rand.Rand, scen string, round int, ops []op, min, max int, al
 		wg.Add(1)
 		go func(o op) {
 			defer wg.Done()
+			defer func() {
+				if p := recover(); p != nil {
+					fmt.Printf("panic %s %s: %v\n", scen, o.name, p)
+				}
+			}()
 			<-start
 			o.f()
 			atomic.AddInt64(&calls, 1)
@@ -109,7 +140,7 @@ func runRound(rng *rand.Rand, scen string, round int, ops []op, min, max int, al
 	go func() { wg.Wait(); close(done) }()
 	select {
 	case <-done:
-	case <-time.After(20 * time.Second):
+	case <-time.After(30 * time.Second):
 		fmt.Printf("stuck %s %d\n", scen, round)
 	}
 }
@@ -126,6 +157,143 @@ type broker struct {
 	// single-member consumer group state
 	generation int32
 	committed  map[int32]int64
+	group      *groupCoord // non-nil: multi-member coordinator
+	extraRecs  int         // records per fetch response beyond 4
+}
+
+// groupCoord is a small multi-member group coordinator (scaffolding): a JoinGroup or LeaveGroup starts a
+// rebalance, members learn about it through RebalanceInProgress on Heartbeat and rejoin, the round is
+// completed `window` after the last join, the leader's SyncGroup distributes the assignments.
+type groupCoord struct {
+	mu          sync.Mutex
+	window      time.Duration
+	generation  int32
+	members     map[string][]byte
+	joined      map[string]bool
+	rebalancing bool
+	lastJoin    time.Time
+	leader      string
+	protocol    string
+	assignments map[string][]byte
+	synced      bool
+	nextID      int
+	rebalances  int
+}
+
+func newGroupCoord() *groupCoord {
+	return &groupCoord{window: 40 * time.Millisecond, members: map[string][]byte{}, joined: map[string]bool{}}
+}
+
+func (g *groupCoord) join(r *joingroup.Request) *joingroup.Response {
+	g.mu.Lock()
+	member := r.MemberID
+	if member == "" {
+		g.nextID++
+		member = fmt.Sprintf("member-%d", g.nextID)
+	}
+	var md []byte
+	if len(r.Protocols) > 0 {
+		md = r.Protocols[0].Metadata
+		g.protocol = r.Protocols[0].Name
+	}
+	g.members[member] = md
+	g.joined[member] = true
+	g.rebalancing = true
+	g.lastJoin = time.Now()
+	start := g.generation
+	deadline := time.Now().Add(3 * time.Second)
+	for g.generation == start && time.Now().Before(deadline) {
+		if g.rebalancing && time.Since(g.lastJoin) >= g.window {
+			for m := range g.members { // members that did not rejoin are dropped
+				if !g.joined[m] {
+					delete(g.members, m)
+				}
+			}
+			g.generation++
+			g.rebalances++
+			g.leader = ""
+			for m := range g.members {
+				if g.leader == "" || m < g.leader {
+					g.leader = m
+				}
+			}
+			g.joined, g.rebalancing, g.synced, g.assignments = map[string]bool{}, false, false, nil
+			break
+		}
+		g.mu.Unlock()
+		time.Sleep(3 * time.Millisecond)
+		g.mu.Lock()
+	}
+	out := &joingroup.Response{GenerationID: g.generation, LeaderID: g.leader, MemberID: member, ProtocolName: g.protocol}
+	if _, in := g.members[member]; !in || g.generation == start {
+		out.ErrorCode = 27 // RebalanceInProgress: try again
+	} else if member == g.leader {
+		var ids []string
+		for m := range g.members {
+			ids = append(ids, m)
+		}
+		sort.Strings(ids)
+		for _, m := range ids {
+			out.Members = append(out.Members, joingroup.ResponseMember{MemberID: m, Metadata: g.members[m]})
+		}
+	}
+	g.mu.Unlock()
+	return out
+}
+
+func (g *groupCoord) sync(r *syncgroup.Request) *syncgroup.Response {
+	g.mu.Lock()
+	defer g.mu.Unlock()
+	out := &syncgroup.Response{}
+	if r.GenerationID != g.generation {
+		out.ErrorCode = 22 // IllegalGeneration
+		return out
+	}
+	if r.MemberID == g.leader {
+		g.assignments = map[string][]byte{}
+		for _, a := range r.Assignments {
+			g.assignments[a.MemberID] = a.Assignment
+		}
+		g.synced = true
+	}
+	deadline := time.Now().Add(2 * time.Second)
+	for !g.synced && !g.rebalancing && r.GenerationID == g.generation && time.Now().Before(deadline) {
+		g.mu.Unlock()
+		time.Sleep(2 * time.Millisecond)
+		g.mu.Lock()
+	}
+	if !g.synced || r.GenerationID != g.generation {
+		out.ErrorCode = 27
+		return out
+	}
+	out.Assignments = g.assignments[r.MemberID]
+	return out
+}
+
+func (g *groupCoord) heartbeat(member string, gen int32) int16 {
+	g.mu.Lock()
+	defer g.mu.Unlock()
+	switch {
+	case g.rebalancing:
+		return 27
+	case gen != g.generation:
+		return 22
+	}
+	if _, in := g.members[member]; !in {
+		return 25 // UnknownMemberId
+	}
+	return 0
+}
+
+func (g *groupCoord) leave(member string) {
+	g.mu.Lock()
+	delete(g.members, member)
+	delete(g.joined, member)
+	if len(g.members) > 0 {
+		g.rebalancing = true
+		g.lastJoin = time.Now()
+	}
+	g.mu.Unlock()
 }
 
 func newBroker(topic string, parts, preload int) *broker {
@@ -172,6 +340,10 @@ func (b *broker) serve(c net.Conn) {
 		case *findcoordinator.Request:
 			resp = &findcoordinator.Response{NodeID: 1, Host: "fake", Port: 9092}
 		case *joingroup.Request:
+			if b.group != nil {
+				resp = b.group.join(r)
+				break
+			}
 			b.mu.Lock()
 			b.generation++
 			gen := b.generation
@@ -187,6 +359,10 @@ func (b *broker) serve(c net.Conn) {
 			}
 			resp = out
 		case *syncgroup.Request:
+			if b.group != nil {
+				resp = b.group.sync(r)
+				break
+			}
 			out := &syncgroup.Response{}
 			for _, a := range r.Assignments {
 				if a.MemberID == r.MemberID {
@@ -195,8 +371,15 @@ func (b *broker) serve(c net.Conn) {
 			}
 			resp = out
 		case *heartbeat.Request:
-			resp = &heartbeat.Response{}
+			out := &heartbeat.Response{}
+			if b.group != nil {
+				out.ErrorCode = b.group.heartbeat(r.MemberID, r.GenerationID)
+			}
+			resp = out
 		case *leavegroup.Request:
+			if b.group != nil {
+				b.group.leave(r.MemberID)
+			}
 			resp = &leavegroup.Response{}
 		case *offsetfetch.Request:
 			out := &offsetfetch.Response{}
@@ -262,7 +445,7 @@ func (b *broker) serve(c net.Conn) {
 					b.mu.Lock()
 					log := b.logs[p.Partition]
 					var recs []protocol.Record
-					for o := p.FetchOffset; o >= 0 && o < int64(len(log)) && len(recs) < 4; o++ {
+					for o := p.FetchOffset; o >= 0 && o < int64(len(log)) && len(recs) < 4+b.extraRecs; o++ {
 						recs = append(recs, protocol.Record{Offset: o, Time: time.Unix(1, 0), Value: protocol.NewBytes(log[o])})
 					}
 					hwm := int64(len(log))
@@ -306,7 +489,9 @@ func (b *broker) serve(c net.Conn) {
 			}
 			resp = out
 		default:
-			return
+			if resp = zeroResponse(msg); resp == nil {
+				return
+			}
 		}
 		if err := protocol.WriteResponse(c, v, corr, resp); err != nil {
 			return
@@ -415,7 +600,7 @@ func scenWriter(rng *rand.Rand, rounds int) {
 			{"Writer.Stats", func() { _ = w.Stats() }},
 			{"Writer.Close", func() { time.Sleep(closeDelay); w.Close() }},
 		}
-		if rng.Intn(2) == 0 {
+		if i%2 == 0 {
 			runRound(rng, "writer", i, ops, 5, 9, "Writer.Close")
 		} else {
 			runRound(rng, "writer", i, ops[:3], 5, 9)
@@ -430,7 +615,10 @@ func scenCodecs(rng *rand.Rand, rounds int) {
 		for _, c := range []compress.Compression{compress.Gzip, compress.Snappy, compress.Lz4, compress.Zstd} {
 			codec := c.Codec()
 			data := bytes.Repeat([]byte(fmt.Sprintf("payload-%d-", rng.Intn(1000))), 1+rng.Intn(200))
+			pkg := "compress/" + codec.Name() + ".Codec."
+			also(codec.Name()+".roundtrip", pkg+"NewReader", pkg+"NewWriter", pkg+"Name", pkg+"Code")
 			ops = append(ops, op{codec.Name() + ".roundtrip", func() {
+				codec.Code()
 				var buf bytes.Buffer
 				w := codec.NewWriter(&buf)
 				w.Write(data)
@@ -457,7 +645,7 @@ func scenReaderFront(rng *rand.Rand, rounds int) {
 		r := kafka.NewReader(kafka.ReaderConfig{Brokers: []string{"fake:9092"}, Topic: "t", Partition: 0, Dialer: d, MaxWait: 10 * time.Millisecond,
 			ReadBackoffMin: time.Millisecond, ReadBackoffMax: 2 * time.Millisecond, ReadLagInterval: time.Duration(rng.Intn(2)) * 5 * time.Millisecond})
 		ops := readerOps(rng, r, 15*time.Millisecond)
-		if rng.Intn(2) == 0 {
+		if i%2 == 0 {
 			runRound(rng, "readerfront", i, ops, 5, 9, "Reader.Close", "Reader.FetchMessage", "Reader.SetOffset")
 		} else {
 			runRound(rng, "readerfront", i, ops[:len(ops)-1], 5, 9, "Reader.FetchMessage", "Reader.SetOffset")
@@ -493,6 +681,11 @@ func readerOps(rng *rand.Rand, r *kafka.Reader, fetchTimeout time.Duration) []op
 		}},
 		{"Reader.Stats", func() { r.Stats() }},
 		{"Reader.Config", func() { r.Config() }},
+		{"Reader.SetOffsetAt", func() {
+			ctx, cancel := context.WithTimeout(context.Background(), fetchTimeout)
+			ok("Reader.SetOffsetAt", r.SetOffsetAt(ctx, time.Unix(1, 0)))
+			cancel()
+		}},
 		{"Reader.Close", func() { time.Sleep(closeDelay); r.Close() }},
 	}
 }
@@ -505,7 +698,7 @@ func scenReader(rng *rand.Rand, rounds int) {
 		r := kafka.NewReader(kafka.ReaderConfig{Brokers: []string{"fake:9092"}, Topic: "t", Partition: 0, Dialer: d, MinBytes: 1, MaxBytes: 1 << 20,
 			MaxWait: 20 * time.Millisecond, ReadBackoffMin: time.Millisecond, ReadBackoffMax: 2 * time.Millisecond, QueueCapacity: 1 + rng.Intn(4)})
 		ops := readerOps(rng, r, 100*time.Millisecond)
-		if rng.Intn(2) == 0 {
+		if i%2 == 0 {
 			runRound(rng, "reader", i, ops, 5, 9, "Reader.Close", "Reader.FetchMessage")
 		} else {
 			runRound(rng, "reader", i, ops[:len(ops)-1], 5, 9, "Reader.FetchMessage", "Reader.SetOffset")
@@ -517,6 +710,8 @@ func scenReader(rng *rand.Rand, rounds int) {
 // Reader in consumer-group mode against the fake broker acting as a single-member group coordinator:
 // subscribe/unsubscribe, commit loop, CommitMessages, Close.
 func scenReaderGroup(rng *rand.Rand, rounds int) {
+	also("Reader.FetchMessage+CommitMessages", "Reader.FetchMessage", "Reader.CommitMessages")
+	also("Reader.Stats", "Reader.Offset", "Reader.Lag", "Reader.SetOffset", "Reader.Config")
 	for i := 0; i < rounds; i++ {
 		b := newBroker("t", 2, 5+rng.Intn(5))
 		d := &kafka.Dialer{DialFunc: func(ctx context.Context, network, address string) (net.Conn, error) { return b.dial(), nil }}
@@ -547,7 +742,7 @@ func scenReaderGroup(rng *rand.Rand, rounds int) {
 			{"Reader.Stats", func() { r.Stats(); r.Offset(); r.Lag(); r.SetOffset(3); r.Config() }},
 			{"Reader.Close", func() { time.Sleep(closeDelay); r.Close() }},
 		}
-		if rng.Intn(2) == 0 {
+		if i%2 == 0 {
 			runRound(rng, "readergroup", i, ops, 4, 7, "Reader.Close", "Reader.FetchMessage+CommitMessages")
 		} else {
 			runRound(rng, "readergroup", i, ops[:3], 4, 7, "Reader.FetchMessage+CommitMessages")
@@ -556,10 +751,82 @@ func scenReaderGroup(rng *rand.Rand, rounds int) {
 	}
 }
 
+// Several Readers of one consumer group against the multi-member coordinator: joins, a member leaving
+// (Close) and a late joiner force rebalances, i.e. generations end (unsubscribe) and start (subscribe)
+// while FetchMessage / CommitMessages / Stats / Close run.
+func scenReaderRebalance(rng *rand.Rand, rounds int) {
+	also("Reader.FetchMessage+CommitMessages", "Reader.FetchMessage", "Reader.CommitMessages")
+	also("Reader.Stats", "Reader.Offset", "Reader.Lag", "Reader.Config")
+	also("NewReader+Reader.FetchMessage", "Reader.FetchMessage", "Reader.Close")
+	for i := 0; i < rounds; i++ {
+		b := newBroker("t", 3, 4+rng.Intn(4))
+		b.group = newGroupCoord()
+		d := &kafka.Dialer{DialFunc: func(ctx context.Context, network, address string) (net.Conn, error) { return b.dial(), nil }}
+		commitEvery := time.Duration(rng.Intn(2)) * 5 * time.Millisecond
+		mk := func() *kafka.Reader {
+			return kafka.NewReader(kafka.ReaderConfig{Brokers: []string{"fake:9092"}, GroupID: "g", Topic: "t", Dialer: d, MinBytes: 1, MaxBytes: 1 << 20,
+				MaxWait: 20 * time.Millisecond, ReadBackoffMin: time.Millisecond, ReadBackoffMax: 2 * time.Millisecond, QueueCapacity: 2,
+				HeartbeatInterval: 10 * time.Millisecond, CommitInterval: commitEvery, JoinGroupBackoff: 5 * time.Millisecond,
+				SessionTimeout: 2 * time.Second, RebalanceTimeout: 2 * time.Second})
+		}
+		r1, r2 := mk(), mk()
+		closeDelay := time.Duration(60+rng.Intn(120)) * time.Millisecond
+		lateDelay := time.Duration(40+rng.Intn(120)) * time.Millisecond
+		fetch := func(r *kafka.Reader, tag string) func() {
+			return func() {
+				for k := 0; k < 6; k++ {
+					ctx, cancel := context.WithTimeout(context.Background(), 250*time.Millisecond)
+					m, err := r.FetchMessage(ctx)
+					ok("Reader.FetchMessage/"+tag, err)
+					if err == nil {
+						ok("Reader.CommitMessages/"+tag, r.CommitMessages(ctx, m))
+					}
+					cancel()
+				}
+			}
+		}
+		ops := []op{
+			{"Reader.FetchMessage+CommitMessages", fetch(r1, "r1")},
+			{"Reader.FetchMessage+CommitMessages", fetch(r2, "r2")},
+			{"Reader.Stats", func() { r1.Stats(); r2.Stats(); r1.Offset(); r1.Lag(); r2.Config() }},
+			{"Reader.Close", func() { time.Sleep(closeDelay); r2.Close() }},
+			{"NewReader+Reader.FetchMessage", func() {
+				time.Sleep(lateDelay)
+				r3 := mk()
+				fetch(r3, "r3")()
+				r3.Close()
+			}},
+		}
+		runRound(rng, "readerrebalance", i, ops, 5, 7, "Reader.Close", "NewReader+Reader.FetchMessage")
+		r1.Close()
+		r2.Close()
+		b.group.mu.Lock()
+		fmt.Printf("rebalances %d generations=%d\n", i, b.group.rebalances)
+		okMu.Lock()
+		okCnt["generations"] += b.group.rebalances
+		okMu.Unlock()
+		b.group.mu.Unlock()
+	}
+}
+
 // Conn + Batch over net.Pipe
 func scenConn(rng *rand.Rand, rounds int) {
+	also("Conn.Broker", "Conn.LocalAddr", "Conn.RemoteAddr")
+	also("Conn.Read", "Conn.ReadBatch", "Conn.ReadBatchWith")
+	also("Conn.ReadMessage", "Conn.ReadBatch", "Conn.ReadBatchWith")
+	also("Batch.ReadMessage", "Conn.ReadBatch", "Conn.ReadBatchWith")
+	also("Conn.ReadOffsets", "Conn.ReadFirstOffset", "Conn.ReadLastOffset")
+	also("Conn.WriteMessages", "Conn.WriteCompressedMessages")
+	also("Conn.Write", "Conn.WriteCompressedMessages")
+	also("Conn.WriteCompressedMessagesAt", "Conn.WriteCompressedMessages")
+	also("Batch.Offset", "Batch.HighWaterMark", "Batch.Throttle", "Batch.Partition")
+	also("Batch.ReadAfterClose", "Batch.Close", "Batch.ReadMessage", "Batch.Read")
+	for _, m := range []string{"Start", "Absolute", "End", "Current", "AbsoluteDontCheck", "CurrentDontCheck"} {
+		also("Conn.Seek/"+m, "Conn.Seek")
+	}
 	for i := 0; i < rounds; i++ {
-		b := newBroker("t", 1, 8)
+		b := newBroker("t", 1, 16)
+		b.extraRecs = 8
 		c := kafka.NewConn(b.dial(), "t", 0)
 		c.SetDeadline(time.Now().Add(5 * time.Second))
 		var bmu sync.Mutex
@@ -573,33 +840,68 @@ func scenConn(rng *rand.Rand, rounds int) {
 			return batch
 		}
 		seekTo := int64(rng.Intn(4))
+		codec := []kafka.CompressionCodec{nil, kafka.Snappy.Codec(), kafka.Gzip.Codec()}[rng.Intn(3)]
+		closeDelay := time.Duration(1+rng.Intn(4)) * time.Millisecond
+		seek := func(name string, off int64, whence int) op {
+			return op{"Conn.Seek/" + name, func() { _, err := c.Seek(off, whence); ok("Conn.Seek/"+name, err) }}
+		}
 		ops := []op{
 			{"Conn.SetDeadline", func() { c.SetDeadline(time.Now().Add(5 * time.Second)) }},
 			{"Conn.SetReadDeadline", func() { c.SetReadDeadline(time.Now().Add(5 * time.Second)) }},
 			{"Conn.SetWriteDeadline", func() { c.SetWriteDeadline(time.Now().Add(5 * time.Second)) }},
 			{"Conn.Offset", func() { c.Offset() }},
-			{"Conn.Seek", func() { c.Seek(seekTo, kafka.SeekAbsolute|kafka.SeekDontCheck) }},
+			seek("AbsoluteDontCheck", seekTo, kafka.SeekAbsolute|kafka.SeekDontCheck),
+			seek("CurrentDontCheck", 1, kafka.SeekCurrent|kafka.SeekDontCheck),
+			seek("Absolute", seekTo+1, kafka.SeekAbsolute),
+			seek("Current", 1, kafka.SeekCurrent),
+			seek("Start", seekTo, kafka.SeekStart),
+			seek("End", 1, kafka.SeekEnd),
 			{"Conn.ReadOffsets", func() { _, _, err := c.ReadOffsets(); ok("Conn.ReadOffsets", err) }},
+			{"Conn.ReadOffset", func() { _, err := c.ReadOffset(time.Now()); ok("Conn.ReadOffset", err) }},
 			{"Conn.ReadPartitions", func() { _, err := c.ReadPartitions("t"); ok("Conn.ReadPartitions", err) }},
-			{"Conn.ApiVersions", func() { c.ApiVersions() }},
+			{"Conn.ApiVersions", func() { _, err := c.ApiVersions(); ok("Conn.ApiVersions", err) }},
 			{"Conn.WriteMessages", func() { _, err := c.WriteMessages(kafka.Message{Value: []byte("w")}); ok("Conn.WriteMessages", err) }},
+			{"Conn.Write", func() { _, err := c.Write([]byte("raw")); ok("Conn.Write", err) }},
+			{"Conn.WriteCompressedMessagesAt", func() {
+				_, _, _, _, err := c.WriteCompressedMessagesAt(codec, kafka.Message{Value: []byte("wc")}, kafka.Message{Value: []byte("wd")})
+				ok("Conn.WriteCompressedMessagesAt", err)
+			}},
 			{"Conn.SetRequiredAcks", func() { c.SetRequiredAcks(1) }},
 			{"Conn.ReadMessage", func() { _, err := c.ReadMessage(1 << 16); ok("Conn.ReadMessage", err) }},
 			{"Conn.Brokers", func() { _, err := c.Brokers(); ok("Conn.Brokers", err) }},
 			{"Conn.Controller", func() { _, err := c.Controller(); ok("Conn.Controller", err) }},
+			{"Conn.CreateTopics", func() {
+				ok("Conn.CreateTopics", c.CreateTopics(kafka.TopicConfig{Topic: "n", NumPartitions: 1, ReplicationFactor: 1}))
+			}},
+			{"Conn.DeleteTopics", func() { ok("Conn.DeleteTopics", c.DeleteTopics("n")) }},
 			{"Conn.Read", func() { _, err := c.Read(make([]byte, 64)); ok("Conn.Read", err) }},
 			{"Conn.Broker", func() { c.Broker(); c.LocalAddr(); c.RemoteAddr() }},
 			{"Batch.ReadMessage", func() { bt := getBatch(); _, err := bt.ReadMessage(); ok("Batch.ReadMessage", err); bt.ReadMessage() }},
-			{"Batch.Read", func() { bt := getBatch(); bt.Read(make([]byte, 2)) }},
+			{"Batch.Read", func() { bt := getBatch(); _, err := bt.Read(make([]byte, 2)); ok("Batch.Read", err) }},
 			{"Batch.Err", func() { getBatch().Err() }},
 			{"Batch.Offset", func() { bt := getBatch(); bt.Offset(); bt.HighWaterMark(); bt.Throttle(); bt.Partition() }},
 			{"Batch.Close", func() { time.Sleep(2 * time.Millisecond); getBatch().Close() }},
+			{"Batch.ReadAfterClose", func() {
+				bt := getBatch()
+				bt.ReadMessage() // the record-batch header is consumed, records are left
+				bt.Close()
+				for k := 0; k < 4; k++ { // a closed batch must not touch the connection any more (D18)
+					bt.ReadMessage()
+					bt.Read(make([]byte, 8))
+				}
+			}},
+			{"Conn.Close", func() { time.Sleep(closeDelay); c.Close() }},
 		}
-		if rng.Intn(2) == 0 {
-			// a Batch is open: operations that need the read lock would wait for Batch.Close, keep it in
-			runRound(rng, "conn", i, ops, 6, 10, "Batch.Close", "Batch.ReadMessage", "Batch.Err", "Conn.Seek")
-		} else {
-			runRound(rng, "conn", i, ops[:15], 6, 10)
+		nConn := len(ops) - 7
+		switch i % 4 {
+		case 0, 2:
+			// a Batch is open: operations that need the read lock wait for Batch.Close, which is always in
+			runRound(rng, "conn", i, ops[:len(ops)-1], 8, 12, "Batch.Close", "Batch.ReadAfterClose", "Batch.ReadMessage", "Batch.Err", "Conn.Seek/AbsoluteDontCheck", "Conn.Seek/Absolute", "Conn.ReadOffsets", "Conn.ReadPartitions")
+		case 1:
+			runRound(rng, "conn", i, ops[:nConn], 8, 12, "Conn.Seek/Absolute", "Conn.Seek/CurrentDontCheck")
+		default:
+			// Close racing with everything (operations fail with a closed pipe from some point on)
+			runRound(rng, "conn", i, append(append([]op(nil), ops[:nConn]...), ops[len(ops)-1]), 8, 12, "Conn.Close", "Conn.Seek/Absolute", "Conn.Seek/AbsoluteDontCheck")
 		}
 		bmu.Lock()
 		if batch != nil {
@@ -610,8 +912,84 @@ func scenConn(rng *rand.Rand, rounds int) {
 	}
 }
 
+// Every exported method of Client, found by reflection, against the fake broker through one Transport:
+// func (c *Client) M(ctx, *MRequest) is called with a zero request (a few need a meaningful one and are
+// written out); the broker answers APIs it does not implement with an empty response of the right type.
+func scenClientAPIs(rng *rand.Rand, rounds int) {
+	for i := 0; i < rounds; i++ {
+		b := newBroker("t", 2, 4)
+		tr := &kafka.Transport{Dial: func(ctx context.Context, network, address string) (net.Conn, error) { return b.dial(), nil },
+			MetadataTTL: time.Duration(5+rng.Intn(20)) * time.Millisecond, IdleTimeout: time.Duration(5+rng.Intn(20)) * time.Millisecond, ClientID: "c10"}
+		cl := &kafka.Client{Addr: kafka.TCP("fake:9092"), Transport: tr, Timeout: 2 * time.Second}
+		special := map[string]func(ctx context.Context) error{
+			"ConsumerOffsets": func(ctx context.Context) error {
+				_, err := cl.ConsumerOffsets(ctx, kafka.TopicAndGroup{Topic: "t", GroupId: "g"})
+				return err
+			},
+			"RawProduce": func(ctx context.Context) error {
+				var buf bytes.Buffer
+				rs := protocol.RecordSet{Version: 2, Records: protocol.NewRecordReader(protocol.Record{Value: protocol.NewBytes([]byte("raw"))})}
+				rs.WriteTo(&buf)
+				_, err := cl.RawProduce(ctx, &kafka.RawProduceRequest{Topic: "t", Partition: 0, RequiredAcks: kafka.RequireOne,
+					RawRecords: protocol.RawRecordSet{Reader: &buf}})
+				return err
+			},
+			"Produce": func(ctx context.Context) error {
+				_, err := cl.Produce(ctx, &kafka.ProduceRequest{Topic: "t", Partition: 1, RequiredAcks: kafka.RequireOne,
+					Records: kafka.NewRecordReader(kafka.Record{Value: kafka.NewBytes([]byte("p"))})})
+				return err
+			},
+			"Fetch": func(ctx context.Context) error {
+				_, err := cl.Fetch(ctx, &kafka.FetchRequest{Topic: "t", Partition: 0, MinBytes: 1, MaxBytes: 1 << 16, MaxWait: 10 * time.Millisecond})
+				return err
+			},
+			"LeaveGroup": func(ctx context.Context) error {
+				_, err := cl.LeaveGroup(ctx, &kafka.LeaveGroupRequest{GroupID: "g", Members: []kafka.LeaveGroupRequestMember{{ID: "m"}}})
+				return err
+			},
+			"Metadata": func(ctx context.Context) error {
+				_, err := cl.Metadata(ctx, &kafka.MetadataRequest{Topics: []string{"t"}})
+				return err
+			},
+		}
+		var ops []op
+		cv := reflect.ValueOf(cl)
+		for m := 0; m < cv.NumMethod(); m++ {
+			name := cv.Type().Method(m).Name
+			mv := cv.Method(m)
+			also("Client."+name, "Transport.RoundTrip")
+			if f, okS := special[name]; okS {
+				ops = append(ops, op{"Client." + name, func() {
+					ctx, cancel := context.WithTimeout(context.Background(), time.Second)
+					defer cancel()
+					ok("Client."+name, f(ctx))
+				}})
+				continue
+			}
+			mt := mv.Type()
+			if mt.NumIn() != 2 || mt.In(1).Kind() != reflect.Ptr || mt.NumOut() != 2 {
+				fmt.Printf("skipped Client.%s: unexpected signature %s\n", name, mt)
+				continue
+			}
+			ops = append(ops, op{"Client." + name, func() {
+				ctx, cancel := context.WithTimeout(context.Background(), time.Second)
+				defer cancel()
+				out := mv.Call([]reflect.Value{reflect.ValueOf(ctx), reflect.New(mt.In(1).Elem())})
+				err, _ := out[1].Interface().(error)
+				ok("Client."+name, err)
+			}})
+		}
+		ops = append(ops, op{"Transport.CloseIdleConnections", func() { time.Sleep(time.Millisecond); tr.CloseIdleConnections() }})
+		runRound(rng, "clientapis", i, ops, 12, 16)
+		tr.CloseIdleConnections()
+	}
+}
+
 // Transport / Client against the fake broker
 func scenTransport(rng *rand.Rand, rounds int) {
+	for _, m := range []string{"Metadata", "Produce", "Fetch", "ListOffsets"} {
+		also("Client."+m, "Transport.RoundTrip")
+	}
 	for i := 0; i < rounds; i++ {
 		b := newBroker("t", 2, 4)
 		tr := &kafka.Transport{Dial: func(ctx context.Context, network, address string) (net.Conn, error) { return b.dial(), nil },
@@ -669,7 +1047,7 @@ func scenTransport(rng *rand.Rand, rounds int) {
 
 var scenarios = map[string]func(*rand.Rand, int){
 	"balancers": scenBalancers, "writer": scenWriter, "codecs": scenCodecs, "readerfront": scenReaderFront,
-	"reader": scenReader, "readergroup": scenReaderGroup, "conn": scenConn, "transport": scenTransport,
+	"reader": scenReader, "readergroup": scenReaderGroup, "readerrebalance": scenReaderRebalance, "conn": scenConn, "clientapis": scenClientAPIs, "transport": scenTransport,
 }
 
 func main() {
@@ -700,7 +1078,11 @@ func main() {
 		h = h*131 + int64(ch)
 	}
 	rng := rand.New(rand.NewSource(seed*7919 + h))
+	totalRounds = rounds
 	f(rng, rounds)
+	for k, v := range alsoMap {
+		fmt.Printf("opmap %s %s\n", k, strings.Join(v, ","))
+	}
 	var oks []string
 	okMu.Lock()
 	for k, v := range okCnt {
